@@ -428,7 +428,7 @@ func c20Execute(cfg c20Cfg) c20Result {
 	c20Runs.Store(run.idx, run)
 	defer c20Runs.Delete(run.idx)
 
-	sopts := []nats.Option{nats.Name("c20-server")}
+	sopts := []nats.Option{nats.Name("c20-server"), nats.Timeout(60 * time.Second)}
 	var faulted int32
 	if fk == 'b' {
 		// the broker is gone for good: two quick reconnect attempts, and nobody else's broker that happens
@@ -441,7 +441,7 @@ func c20Execute(cfg c20Cfg) c20Result {
 		return fail("server connection: " + err.Error())
 	}
 	defer sconn.Close()
-	copts := []nats.Option{nats.Name("c20-client")}
+	copts := []nats.Option{nats.Name("c20-client"), nats.Timeout(60 * time.Second)}
 	if fk == 'b' { // the clients share the broker that goes away: they must fail fast then
 		copts = append(copts, nats.NoReconnect())
 	}
